@@ -23,6 +23,8 @@ def run(ctx):
     monitor.enable(*monitors(ctx))
     from .. import w_suite
     w_suite.maybe(ctx)      # thorough tier: the repository's own tests under this property's monitors
+    from .. import w_misc
+    w_misc.drive_session(ctx, ctx.tier)   # long-lived signature objects through many operations
     ctx.floor('C10.merge_consistent', 300)
     ctx.floor('C10.embed', 300)
     ctx.floor('C10.mask', 300)
